@@ -59,12 +59,19 @@ type analysed struct {
 // analyseCases runs the real analysis on every loaded case.
 func analyseCases(l *load.Loaded) []*analysed {
 	var out []*analysed
+	fatal := preflightAnalysis(l)
 	for _, c := range l.Mod.Cases {
 		p := l.Pkgs[c.ID]
 		if p == nil {
 			continue
 		}
 		a := &analysed{Case: c, Pkg: p, File: l.Mod.MainFile(c)}
+		if msg, isFatal := fatal[c.ID]; isFatal {
+			a.Out = outcome{Class: "fatal", Msg: msg}
+			a.FB = facts.Walk(p, a.File)
+			out = append(out, a)
+			continue
+		}
 		a.Out = guard(func() { a.Ana = analysis.NewAnalysisFromFile(p, a.File) })
 		if a.Out.Class == "ok" {
 			a.Env = irdump.Dump(a.Ana)
